@@ -113,8 +113,27 @@ class Scenario:
                     return False
                 data += d
             nw.deliver(s.fs, data)
-        elif kind == "mfrag":
-            # deliver the next third of message ev[2] on socket ev[1] (a message trickling in over several reads)
+        elif kind == "x":
+            # ("x", c1, name1, c2, name2): two connections receive a message in the same instant (one select round sees both)
+            s1, s2 = self.sock(ev[1]), self.sock(ev[3])
+            if s1 is None or s2 is None or s1 is s2:
+                return False
+            for s in (s1, s2):
+                if (s.fs.connecting and (not s.fs.conn_done or s.fs.so_error)) or getattr(s, "frags", None):
+                    return False
+            d1 = self.message(s1, ev[2])
+            if d1 is None:
+                return False
+            d2 = self.message(s2, ev[4])
+            if d2 is None:
+                # (message() may have advanced s1's counters: a history containing this event is simply not enabled - harmless,
+                # the same call sequence is repeated on every replay)
+                return False
+            nw.deliver(s1.fs, d1, run=False)
+            nw.deliver(s2.fs, d2)
+        elif kind in ("mfrag", "mtiny"):
+            # deliver the next third of message ev[2] on socket ev[1] (a message trickling in over several reads);
+            # "mtiny": the first read carries 12 bytes only (less than a header), the second the rest
             s = self.sock(ev[1])
             if s is None or (s.fs.connecting and (not s.fs.conn_done or s.fs.so_error)):
                 return False
@@ -123,7 +142,7 @@ class Scenario:
                 if d is None:
                     return False
                 k = max(1, len(d) // 3)
-                s.frags = [d[:k], d[k:2 * k], d[2 * k:]]
+                s.frags = [d[:k], d[k:2 * k], d[2 * k:]] if kind == "mfrag" else [d[:12], d[12:]]
             nw.deliver(s.fs, s.frags.pop(0))
         elif kind == "tick":
             nw.tick(ev[1])
@@ -133,6 +152,14 @@ class Scenario:
                 return False
             s.env_closed = True
             (nw.eof if kind == "eof" else nw.reset)(s.fs)
+        elif kind == "wrerr":
+            # the next send() on socket ev[1] fails hard (EPIPE): the peer is gone but no FIN/RST has been seen yet
+            s = self.sock(ev[1])
+            if s is None or s.fs.send_plan or (s.fs.connecting and not s.fs.conn_done):
+                return False
+            import errno as _errno
+            s.fs.send_plan.append(-_errno.EPIPE)
+            nw.world.obs("env_write_error", s.fs.sid)
         elif kind == "plan":
             if nw.world.connect_plan:
                 return False
@@ -471,6 +498,7 @@ class Scenario:
             peers.append((name, None if pc is None else (pc.state, pc.ident in node.connections), p.disconnect_reason,
                           age(p.last_disconnect)))
         socks = tuple((s.kind, s.fs.closed, s.env_closed, s.cer_sent, s.cea_sent, s.host, len(s.fs.rbuf), s.fs.connecting and not s.fs.conn_done,
+                       tuple(p for p in s.fs.send_plan if isinstance(p, int)),
                        tuple(sorted(s.answered_out))) for s in self.socks)
         waiting = tuple(sorted((tuple(sorted(map(repr, m))),) for h, m in getattr(node, "_peer_waiting_answer", {}).items() if m))
         appw = tuple(sorted(getattr(node, "_app_waiting_answer", {})))
